@@ -679,9 +679,10 @@ def gen_dynelem(rng, name, codes, lens, pick=None):
     """the failure needs parameter i to have length n (one of its candidates, n > 0) AND its LAST element / word (the
     one that only exists at that length) to have a given non-zero value: the symbolic content must be laid out for
     every candidate, whatever the order in which the candidates are configured"""
-    shape = rng.choice([["uint256[]"], ["bytes"], ["uint256", "uint256[]"], ["uint256[]", "bytes"], ["string"], ["bytes", "uint256"]])
-    dyn = [i for i, t in enumerate(shape) if l3.is_dynamic(t)]
-    i = dyn[0] if pick is None else dyn[pick[0] % len(dyn)]
+    kind = pick[0] if pick is not None else rng.choice(["array", "bytes"])      # pick = (kind of the parameter, index of the candidate)
+    shape = rng.choice([["uint256[]"], ["uint256", "uint256[]"], ["uint256[]", "bytes"], ["uint256[]", "uint256"]] if kind == "array" else
+                       [["bytes"], ["string"], ["bytes", "uint256"], ["uint256", "string"], ["bytes", "uint256[]"]])
+    i = next(k for k, t in enumerate(shape) if l3.is_dynamic(t) and t.endswith("[]") == (kind == "array"))
     t = shape[i]
     cands = [n for n in bounds_of(lens, i, t) if n > 0]
     n = cands[(pick[1] if pick is not None else rng.randrange(len(cands))) % len(cands)]
